@@ -319,6 +319,10 @@ func scenarios(prop, tier string) []*Scenario {
 			&Scenario{Name: "initload/configured-two+unmark+mark+unmark+restart", Cfg: hdr.Config{MaxBranchDepth: 144, InitLoad: true, Invalid: []string{"G/a/a", "G/a/b"}},
 				N: pick(3, 4), Marks: 3, M: 1, Maint: []hdr.Op{opReload}, Slots: []string{"a", "b"}, UnmarkConfigured: true, OnlyTipParents: 2},
 		)
+		// two callers: a header is unmarked while a second caller marks another one, the second call
+		// arriving inside the first one's write of the invalid list (both must take effect)
+		r = append(r, &Scenario{Name: "genesis/unmark-with-a-concurrent-mark", Cfg: hdr.Config{MaxBranchDepth: 144}, N: pick(3, 4), Marks: 2, MarkOnlyKnown: true, MarkRaces: true, M: 1,
+			Maint: []hdr.Op{opReload}, Slots: []string{"a", "H"}})
 		for _, s := range r {
 			s.oracles = []oracle{oracleC17, oracleC08verdict}
 		}
@@ -392,7 +396,9 @@ func scenarios(prop, tier string) []*Scenario {
 				M: 1, Maint: []hdr.Op{opClean}, Slots: []string{"a", "H"}, OnlyTipParents: 4})
 		}
 		for _, s := range r {
-			s.oracles = []oracle{oracleC19}
+			// (the locator describes the best chain: the tip it starts from has to be the most-work tip
+			// of the reference tree, not merely whatever the repository reports - oracleC01)
+			s.oracles = []oracle{oracleC01, oracleC19} // C01 first: the C19 oracle ends with submissions of simulated peer replies
 			// locators are requested after every operation of the history (peers are polled between
 			// events), not only in the state under examination
 			s.Cfg.ObserveLocators = true
